@@ -585,7 +585,8 @@ def check_primitives(chk, M, spec):
             if c and len(c) == 1 and c[0].endswith('_pack'):
                 return Sym('%s(%s)' % (c[0], ', '.join(text_of(a) for a in args)))
             if c and c[-1] == 'encode':
-                return Sym(text_of(interp.eval(call.func.value, env)))
+                # the encoded bytes are a different value (and length) than the text they come from
+                return Sym('encoded(%s)' % text_of(interp.eval(call.func.value, env)))
             return NotImplemented
         it = Interp(M.proto, M.folder, effect=eff)
         params = [a.arg for a in f.args.args]
